@@ -395,6 +395,31 @@ def _check_nll(ck, inst, f, p, t, mname):
                 ck.check((isym == bsym) if (isym and bsym) else None, "C10.R4", inst + ":group's samples rotated with the group's basis", f.site(), "samples of group %s are rotated with the basis of group %s" % (isym, bsym))
 
 
+def _kl_convention(ck):
+    """In which order _single_basis_KL takes (target, model): found once from what it returns for two named distributions."""
+    if "_c10_kl_conv" in ck.__dict__:
+        return ck.__dict__["_c10_kl_conv"]
+    conv = None
+    try:
+        prog = ck.program
+        skl = prog.func(M, "_single_basis_KL")
+        ps = [q for q in paths_of(prog, lambda it: it.call_function(VFunc(skl), [tens(it, "t", ("N",)), tens(it, "m", ("N",))], {}, None)) if q.outcome == "return"]
+        t_, m_ = T.sym("t"), T.sym("m")
+        want = T.app("matmul", t_, T.app("plog", t_)) - T.app("matmul", t_, T.app("plog", m_))
+        wsum = T.app("sum", t_ * T.app("plog", t_), "all") - T.app("sum", t_ * T.app("plog", m_), "all")
+        gots = {q.value.term for q in ps if getattr(q.value, "term", None) is not None}
+        if len(gots) == 1:
+            g = gots.pop()
+            if g in (want, wsum):
+                conv = "target-first"
+            elif g in (T.rename_syms(want, {"t": "m", "m": "t"}), T.rename_syms(wsum, {"t": "m", "m": "t"})):
+                conv = "model-first"
+    except Exception:
+        conv = None
+    ck.__dict__["_c10_kl_conv"] = conv
+    return conv
+
+
 def _check_kl(ck, inst, f, p, t, mname, cls):
     it = p.interp
     kc = [c for c in p.calls if c[0].endswith("_single_basis_KL")]
@@ -445,8 +470,16 @@ def _check_kl(ck, inst, f, p, t, mname, cls):
                              "this call of the single-basis KL returns sum m (log m - log t), the divergence of the target from the model: the divergence is taken in the wrong direction",
                              key="C10.R3|KL|reverse divergence")
                 continue
-        ck.check(True if ok else (None if swapped else None), "C10.R3", inst + ":KL(target || model) argument order [%s]" % _c(p), f.site(),
-                 "the single-basis KL receives (model, target) by position and what it returns is not followed")
+        # what this call returns is not followed: by position then, under the order the routine itself was found to use
+        conv_ = _kl_convention(ck)
+        if conv_ == "target-first":
+            verdict_ = True if ok else (False if swapped else None)
+        elif conv_ == "model-first":
+            verdict_ = True if swapped else (False if ok else None)
+        else:
+            verdict_ = True if ok else None
+        ck.check(verdict_, "C10.R3", inst + ":KL(target || model) argument order [%s]" % _c(p), f.site(),
+                 "the single-basis KL receives its two distributions in the other order than the one it takes them in: the divergence is taken in the wrong direction")
     if mname.endswith("/bases"):
         # same rotation of target and model in each basis
         rots = [c for c in p.calls if c[0].endswith("unitaries.rotate_psi") or c[0].endswith("unitaries.rotate_rho_probs")]
